@@ -13,6 +13,7 @@ pub mod c06;
 pub mod c07;
 pub mod c08;
 pub mod c09;
+pub mod c10;
 pub mod c11;
 pub mod c12;
 pub mod c13;
@@ -48,6 +49,7 @@ pub fn run(prop: &str, leg: &str, ctx: &Ctx, rep: &mut Report) -> bool {
         ("C15", "child") => c15::child(ctx, rep),
         #[cfg(feature = "pq")]
         ("C16", "interop") => c16::interop(ctx, rep),
+        ("C10", "transcripts") => c10::transcripts(ctx, rep),
         ("C17", "synthetic") => c17::synthetic(ctx, rep),
         ("C17", "captured") => c17::captured(ctx, rep),
         ("C09", "blocks") => c09::blocks(ctx, rep),
